@@ -23,6 +23,7 @@ DOCS = {
  'noise': '<svg xmlns="http://www.w3.org/2000/svg" xmlns:foo="http://foo" viewBox="0 0 8 8"><?pi x?><symbol><rect width="1" height="1"/></symbol><foo:bar/><path d="M0,0 L4,0 4,4 0,4 z M1,1 L3,1 3,3 1,3 z" fill-rule="evenodd" foo:attr="1"/><ellipse cx="4" cy="4" rx="2" ry="1" stroke="red" stroke-width="0.5" fill="none"/></svg>',
  'styled': '<svg xmlns="http://www.w3.org/2000/svg" viewBox="0 0 10 10"><g fill="red"><rect width="2" height="2" style="fill:black;stroke:none;bogus:1"/><rect x="3" width="2" height="2" fill="black" style="opacity:1"/></g><path d="M0,0 L1,1" style="fill-opacity:1.0"/></svg>',
  'unpainted': '<svg xmlns="http://www.w3.org/2000/svg" viewBox="0 0 10 10"><path d="M1,1"/><rect width="3" height="3" fill="none"/><g opacity="0.5"><rect x="4" width="3" height="3"/><path d="M0,0 L5,0" /></g><circle cx="5" cy="5" r="1"/></svg>',
+ 'group_style': '<svg xmlns="http://www.w3.org/2000/svg" viewBox="0 0 10 10"><g style="fill:red;fill-rule:evenodd"><rect x="1" y="1" width="4" height="4"/><circle cx="6" cy="6" r="2" fill="blue"/></g></svg>',
  'pico': '<svg xmlns="http://www.w3.org/2000/svg" viewBox="0 0 10 10"><defs/><path d="M1,1 L5,1 L5,5 Z" fill="red"/><path d="M-5,-5 L-1,-5 L-1,-1 Z"/></svg>',
 }
 
@@ -95,7 +96,10 @@ def run_lazy(doc, history):
                 after = snapshot(obj)
                 if snap != after: notes.append(f'{name}() (copy) changed the receiver\'s serialisation')
                 if not isinstance(r, SVG): notes.append(f'{name}() (copy) returned {type(r).__name__}')
-                else: obj = r
+                else:
+                    # the copy is a different object (or later in-place work on it would show in the receiver)
+                    if r is obj: notes.append(f'{name}() (copy) returned the receiver itself, not a copy')
+                    obj = r
         except Exception as ex:
             return ('exc', type(ex).__name__, notes)
     try: return ('ok', c14n(obj.tostring()), notes)
